@@ -34,7 +34,7 @@ def main(ctx):
                 t = o.split()
                 if t[0] == "cfg":
                     n_cfg += 1
-                    if t[6] == "external":
+                    if t[6].startswith("external"):
                         n_ext += 1
                     groups.setdefault((t[1], t[2], t[3]), []).append((t[4], t[5], t[6], t[8]))
                     if t[8].startswith("PANIC"):
